@@ -304,6 +304,9 @@ func (w *World) exec(o Op) string {
 	case "get", "has", "scan", "iter":
 		r, bad := w.reader(o.Src)
 		if bad != "" {
+			if o.K == "iter" {
+				w.iters = append(w.iters, nil)
+			}
 			return bad
 		}
 		switch o.K {
@@ -387,10 +390,10 @@ func (w *World) exec(o Op) string {
 			if err != nil {
 				return classify(err)
 			}
-			if v == nil {
-				return "nil"
+			if !it.Valid() {
+				return "nil" // Pebble: (nil, nil) on an iterator that is not valid
 			}
-			return "val:" + hx(v)
+			return "val:" + hx(v) // nil and empty values are the same value
 		}
 		return classify(it.Close())
 	case "update":
@@ -442,7 +445,7 @@ func (w *World) exec(o Op) string {
 		} else {
 			err = w.store.Write(func(b db.Batch) error { return run(b) })
 		}
-		if !entered {
+		if !entered || len(outs) == 0 {
 			return "-> " + classify(err)
 		}
 		return strings.Join(outs, ";") + " -> " + classify(err)
